@@ -381,3 +381,591 @@ Definition first_rejected (fv : Z -> Z) (g par bufsz : Z) (items : list Z) (gate
                (close (qstep fv) vis st_eqb tau_labels 64 [init g par bufsz items gated]) evs O.
 
 End MI.
+
+(* ====================================================================== *)
+(*                               MapStream                                *)
+(* ====================================================================== *)
+Module MS.
+
+Inductive cause := ByError | ByClose | ByParent | ByWait.   (* who cancelled the group's context *)
+Inductive gstate := GLive | GDone (c : cause).
+
+Inductive err :=
+| EF (k : nat)          (* the error f returned for item k *)
+| ESrc                  (* the error the source returned *)
+| ECtx (c : cause).     (* ctx.Err() of the group's context (tagged with who cancelled it) *)
+
+Inductive res := RVal (v : Z) | REnd | RErr (e : err) | RCtx.   (* RCtx: the per-call context's error *)
+
+Inductive sout := SoItem (k : nat) | SoEnd | SoErr | SoCtx.     (* what the source's Next returned *)
+Inductive fout := FoOk | FoErr | FoCtx.                         (* what f returned *)
+
+Inductive creq := RqNext (j : nat) | RqClose.                   (* controller requests to the consumer *)
+
+Inductive dpc :=
+| SPull | SInSrc
+| SWait (k : nat)             (* first select: ctx.Done / <-ready *)
+| SSend (k : nat)             (* second select: ctx.Done / in <- item *)
+| SCloseIn (r : option err)   (* function body returned r; deferred close(in) next *)
+| SCloseSrc (r : option err)  (* deferred s.Close() next *)
+| SInClose (r : option err)   (* inside the source's Close *)
+| SRet (r : option err)       (* errgroup wrapper: record error, wg.Done *)
+| SDone.
+
+Inductive wpc :=
+| TIdle | THas (k : nat) | TInF (k : nat)
+| TSend (k : nat) (v : Z)     (* select: c <- result / ctx.Done *)
+| TExit (r : option err)      (* deferred nDone++ / close(c) next *)
+| TRet (r : option err)       (* errgroup wrapper *)
+| TDone.
+
+Inductive cpc :=
+| KIdle
+| KLoop (j : nat)             (* inside Next with context j, top of the loop *)
+| KPut (j : nat) (v : Z)      (* at  s.ready <- struct{}{}  *)
+| KSel (j : nat)              (* select: <-s.c / ctx.Done *)
+| KWait                       (* c closed: inside eg.Wait() *)
+| KRet (r : res)
+| KClose1                     (* inside Close, about to cancel *)
+| KClose2                     (* inside Close, in eg.Wait() *)
+| KCloseRet
+| KClosed.
+
+Record st := mkSt {
+  (* configuration *)
+  src : list Z; ferr : list bool; serr : bool; buf : nat; fgated : list bool; sgated : list bool;
+  (* harness state *)
+  frel : list bool; srel : list bool; reqs : list creq; nctx : list bool; pdone : bool;
+  (* library state *)
+  g : gstate; eg_err : option err; egdone : nat;
+  pulled : nat; disp : dpc; tokens : nat; ws : list wpc; in_closed : bool; ndone : nat;
+  cbuf : list entry; c_closed : bool; heap : list entry; next : nat; cons : cpc;
+  (* ghost *)
+  yielded : list Z; taken : nat; ndisp : nat; failed : list nat; srcfailed : bool;
+  close_called : bool; src_closed : nat
+}.
+
+Inductive lab :=
+(* up-calls *)
+| LSrcEnter | LSrcExit (o : sout) | LSrcCloseEnter | LSrcCloseExit
+| LFEnter (w k : nat) | LFExit (w k : nat) (o : fout)
+(* consumer API *)
+| LCallNext (j : nat) | LRetNext (r : res) | LCallClose | LRetClose
+(* controller *)
+| LReq (c : creq) | LReleaseF (k : nat) | LReleaseS (k : nat) | LCancelParent | LCancelNext (j : nat)
+| LQuiesce
+(* internal: dispatcher *)
+| TDReady | TDCtx | TDispatch (w : nat) | TCloseIn | TDRet
+(* internal: workers *)
+| TInClosed (w : nat) | TWSend (w : nat) | TWCtx (w : nat) | TWExit (w : nat) | TWRet (w : nat)
+(* internal: consumer *)
+| TLoop | TPut | TRecv | TCClosed | TNextCtx | TWait | TCloseCancel | TCloseWait
+(* internal: context package *)
+| TParentProp.
+
+Definition cancelG (x : gstate) (c : cause) : gstate := match x with GLive => GDone c | _ => x end.
+
+(* errgroup: the first non-nil error is recorded and cancels the group's context *)
+Definition record (r : option err) (e : option err) (x : gstate) : option err * gstate :=
+  match r, e with
+  | Some a, None => (Some a, cancelG x ByError)
+  | _, _ => (e, x)
+  end.
+
+Definition cause_eqb (a b : cause) : bool :=
+  match a, b with
+  | ByError, ByError | ByClose, ByClose | ByParent, ByParent | ByWait, ByWait => true
+  | _, _ => false
+  end.
+Definition err_eqb (a b : err) : bool :=
+  match a, b with
+  | EF x, EF y => Nat.eqb x y
+  | ESrc, ESrc => true
+  | ECtx x, ECtx y => cause_eqb x y
+  | _, _ => false
+  end.
+Definition res_eqb (a b : res) : bool :=
+  match a, b with
+  | RVal x, RVal y => Z.eqb x y
+  | REnd, REnd | RCtx, RCtx => true
+  | RErr x, RErr y => err_eqb x y
+  | _, _ => false
+  end.
+Definition sout_eqb (a b : sout) : bool :=
+  match a, b with
+  | SoItem x, SoItem y => Nat.eqb x y
+  | SoEnd, SoEnd | SoErr, SoErr | SoCtx, SoCtx => true
+  | _, _ => false
+  end.
+
+Section Step.
+Variable fv : Z -> Z.
+
+(* single-field updates *)
+Definition set_disp (s : st) (d : dpc) : st :=
+  mkSt (src s) (ferr s) (serr s) (buf s) (fgated s) (sgated s) (frel s) (srel s) (reqs s) (nctx s) (pdone s)
+       (g s) (eg_err s) (egdone s) (pulled s) d (tokens s) (ws s) (in_closed s) (ndone s)
+       (cbuf s) (c_closed s) (heap s) (next s) (cons s)
+       (yielded s) (taken s) (ndisp s) (failed s) (srcfailed s) (close_called s) (src_closed s).
+Definition set_w (s : st) (w : nat) (x : wpc) : st :=
+  mkSt (src s) (ferr s) (serr s) (buf s) (fgated s) (sgated s) (frel s) (srel s) (reqs s) (nctx s) (pdone s)
+       (g s) (eg_err s) (egdone s) (pulled s) (disp s) (tokens s) (upd (ws s) w x) (in_closed s) (ndone s)
+       (cbuf s) (c_closed s) (heap s) (next s) (cons s)
+       (yielded s) (taken s) (ndisp s) (failed s) (srcfailed s) (close_called s) (src_closed s).
+Definition set_cons (s : st) (c : cpc) : st :=
+  mkSt (src s) (ferr s) (serr s) (buf s) (fgated s) (sgated s) (frel s) (srel s) (reqs s) (nctx s) (pdone s)
+       (g s) (eg_err s) (egdone s) (pulled s) (disp s) (tokens s) (ws s) (in_closed s) (ndone s)
+       (cbuf s) (c_closed s) (heap s) (next s) c
+       (yielded s) (taken s) (ndisp s) (failed s) (srcfailed s) (close_called s) (src_closed s).
+Definition set_g (s : st) (x : gstate) : st :=
+  mkSt (src s) (ferr s) (serr s) (buf s) (fgated s) (sgated s) (frel s) (srel s) (reqs s) (nctx s) (pdone s)
+       x (eg_err s) (egdone s) (pulled s) (disp s) (tokens s) (ws s) (in_closed s) (ndone s)
+       (cbuf s) (c_closed s) (heap s) (next s) (cons s)
+       (yielded s) (taken s) (ndisp s) (failed s) (srcfailed s) (close_called s) (src_closed s).
+Definition set_harness (s : st) (fr sr : list bool) (rq : list creq) (nc : list bool) (pd : bool) : st :=
+  mkSt (src s) (ferr s) (serr s) (buf s) (fgated s) (sgated s) fr sr rq nc pd
+       (g s) (eg_err s) (egdone s) (pulled s) (disp s) (tokens s) (ws s) (in_closed s) (ndone s)
+       (cbuf s) (c_closed s) (heap s) (next s) (cons s)
+       (yielded s) (taken s) (ndisp s) (failed s) (srcfailed s) (close_called s) (src_closed s).
+
+Definition getw (s : st) (w : nat) : option wpc := nth_error (ws s) w.
+
+Definition step (s : st) (l : lab) : option st :=
+  match l with
+  (* ---------------- dispatcher ---------------- *)
+  | LSrcEnter => match disp s with SPull => Some (set_disp s SInSrc) | _ => None end
+  | LSrcExit o =>
+      match disp s with
+      | SInSrc =>
+          match o with
+          | SoItem k =>
+              if Nat.eqb k (pulled s) && (pulled s <? length (src s))%nat && nthb (srel s) (pulled s)
+              then Some (mkSt (src s) (ferr s) (serr s) (buf s) (fgated s) (sgated s) (frel s) (srel s) (reqs s)
+                              (nctx s) (pdone s) (g s) (eg_err s) (egdone s) (S (pulled s)) (SWait k) (tokens s)
+                              (ws s) (in_closed s) (ndone s) (cbuf s) (c_closed s) (heap s) (next s) (cons s)
+                              (yielded s) (taken s) (ndisp s) (failed s) (srcfailed s) (close_called s) (src_closed s))
+              else None
+          | SoEnd =>
+              if Nat.eqb (pulled s) (length (src s)) && negb (serr s) && nthb (srel s) (pulled s)
+              then Some (set_disp s (SCloseIn None)) else None
+          | SoErr =>
+              if Nat.eqb (pulled s) (length (src s)) && serr s && nthb (srel s) (pulled s)
+              then Some (mkSt (src s) (ferr s) (serr s) (buf s) (fgated s) (sgated s) (frel s) (srel s) (reqs s)
+                              (nctx s) (pdone s) (g s) (eg_err s) (egdone s) (pulled s) (SCloseIn (Some ESrc)) (tokens s)
+                              (ws s) (in_closed s) (ndone s) (cbuf s) (c_closed s) (heap s) (next s) (cons s)
+                              (yielded s) (taken s) (ndisp s) (failed s) true (close_called s) (src_closed s))
+              else None
+          | SoCtx =>
+              (* a gated source waits for its gate or for the context it was given *)
+              match g s with
+              | GDone c => if nthb (sgated s) (pulled s) then Some (set_disp s (SCloseIn (Some (ECtx c)))) else None
+              | GLive => None
+              end
+          end
+      | _ => None
+      end
+  | TDReady =>
+      match disp s, tokens s with
+      | SWait k, S t =>
+          Some (mkSt (src s) (ferr s) (serr s) (buf s) (fgated s) (sgated s) (frel s) (srel s) (reqs s)
+                     (nctx s) (pdone s) (g s) (eg_err s) (egdone s) (pulled s) (SSend k) t
+                     (ws s) (in_closed s) (ndone s) (cbuf s) (c_closed s) (heap s) (next s) (cons s)
+                     (yielded s) (S (taken s)) (ndisp s) (failed s) (srcfailed s) (close_called s) (src_closed s))
+      | _, _ => None
+      end
+  | TDCtx =>
+      match disp s, g s with
+      | SWait _, GDone c | SSend _, GDone c => Some (set_disp s (SCloseIn (Some (ECtx c))))
+      | _, _ => None
+      end
+  | TDispatch w =>
+      match disp s, getw s w with
+      | SSend k, Some TIdle =>
+          Some (mkSt (src s) (ferr s) (serr s) (buf s) (fgated s) (sgated s) (frel s) (srel s) (reqs s)
+                     (nctx s) (pdone s) (g s) (eg_err s) (egdone s) (pulled s) SPull (tokens s)
+                     (upd (ws s) w (THas k)) (in_closed s) (ndone s) (cbuf s) (c_closed s) (heap s) (next s) (cons s)
+                     (yielded s) (taken s) (S (ndisp s)) (failed s) (srcfailed s) (close_called s) (src_closed s))
+      | _, _ => None
+      end
+  | TCloseIn =>
+      match disp s with
+      | SCloseIn r =>
+          Some (mkSt (src s) (ferr s) (serr s) (buf s) (fgated s) (sgated s) (frel s) (srel s) (reqs s)
+                     (nctx s) (pdone s) (g s) (eg_err s) (egdone s) (pulled s) (SCloseSrc r) (tokens s)
+                     (ws s) true (ndone s) (cbuf s) (c_closed s) (heap s) (next s) (cons s)
+                     (yielded s) (taken s) (ndisp s) (failed s) (srcfailed s) (close_called s) (src_closed s))
+      | _ => None
+      end
+  | LSrcCloseEnter =>
+      match disp s with
+      | SCloseSrc r =>
+          Some (mkSt (src s) (ferr s) (serr s) (buf s) (fgated s) (sgated s) (frel s) (srel s) (reqs s)
+                     (nctx s) (pdone s) (g s) (eg_err s) (egdone s) (pulled s) (SInClose r) (tokens s)
+                     (ws s) (in_closed s) (ndone s) (cbuf s) (c_closed s) (heap s) (next s) (cons s)
+                     (yielded s) (taken s) (ndisp s) (failed s) (srcfailed s) (close_called s) (S (src_closed s)))
+      | _ => None
+      end
+  | LSrcCloseExit => match disp s with SInClose r => Some (set_disp s (SRet r)) | _ => None end
+  | TDRet =>
+      match disp s with
+      | SRet r =>
+          let '(e, x) := record r (eg_err s) (g s) in
+          Some (mkSt (src s) (ferr s) (serr s) (buf s) (fgated s) (sgated s) (frel s) (srel s) (reqs s)
+                     (nctx s) (pdone s) x e (S (egdone s)) (pulled s) SDone (tokens s)
+                     (ws s) (in_closed s) (ndone s) (cbuf s) (c_closed s) (heap s) (next s) (cons s)
+                     (yielded s) (taken s) (ndisp s) (failed s) (srcfailed s) (close_called s) (src_closed s))
+      | _ => None
+      end
+  (* ---------------- workers ---------------- *)
+  | TInClosed w =>
+      match getw s w with
+      | Some TIdle => if in_closed s then Some (set_w s w (TExit None)) else None
+      | _ => None
+      end
+  | LFEnter w k =>
+      match getw s w with
+      | Some (THas k') => if Nat.eqb k k' then Some (set_w s w (TInF k)) else None
+      | _ => None
+      end
+  | LFExit w k o =>
+      match getw s w with
+      | Some (TInF k') =>
+          if Nat.eqb k k' then
+            match o with
+            | FoOk =>
+                if nthb (frel s) k && negb (nthb (ferr s) k)
+                then Some (set_w s w (TSend k (fv (nth k (src s) 0)))) else None
+            | FoErr =>
+                if nthb (frel s) k && nthb (ferr s) k
+                then Some (mkSt (src s) (ferr s) (serr s) (buf s) (fgated s) (sgated s) (frel s) (srel s) (reqs s)
+                                (nctx s) (pdone s) (g s) (eg_err s) (egdone s) (pulled s) (disp s) (tokens s)
+                                (upd (ws s) w (TExit (Some (EF k)))) (in_closed s) (ndone s) (cbuf s) (c_closed s)
+                                (heap s) (next s) (cons s)
+                                (yielded s) (taken s) (ndisp s) (k :: failed s) (srcfailed s) (close_called s) (src_closed s))
+                else None
+            | FoCtx =>
+                match g s with
+                | GDone c =>
+                    if nthb (fgated s) k
+                    then Some (mkSt (src s) (ferr s) (serr s) (buf s) (fgated s) (sgated s) (frel s) (srel s) (reqs s)
+                                    (nctx s) (pdone s) (g s) (eg_err s) (egdone s) (pulled s) (disp s) (tokens s)
+                                    (upd (ws s) w (TExit (Some (ECtx c)))) (in_closed s) (ndone s) (cbuf s) (c_closed s)
+                                    (heap s) (next s) (cons s)
+                                    (yielded s) (taken s) (ndisp s) (k :: failed s) (srcfailed s) (close_called s) (src_closed s))
+                    else None
+                | GLive => None
+                end
+            end
+          else None
+      | _ => None
+      end
+  | TWSend w =>
+      match getw s w with
+      | Some (TSend k v) =>
+          if (length (cbuf s) <? buf s)%nat
+          then Some (mkSt (src s) (ferr s) (serr s) (buf s) (fgated s) (sgated s) (frel s) (srel s) (reqs s)
+                          (nctx s) (pdone s) (g s) (eg_err s) (egdone s) (pulled s) (disp s) (tokens s)
+                          (upd (ws s) w TIdle) (in_closed s) (ndone s) (cbuf s ++ [(k, v)]) (c_closed s)
+                          (heap s) (next s) (cons s)
+                          (yielded s) (taken s) (ndisp s) (failed s) (srcfailed s) (close_called s) (src_closed s))
+          else None
+      | _ => None
+      end
+  | TWCtx w =>
+      match getw s w, g s with
+      | Some (TSend k v), GDone c => Some (set_w s w (TExit (Some (ECtx c))))
+      | _, _ => None
+      end
+  | TWExit w =>
+      match getw s w with
+      | Some (TExit r) =>
+          Some (mkSt (src s) (ferr s) (serr s) (buf s) (fgated s) (sgated s) (frel s) (srel s) (reqs s)
+                     (nctx s) (pdone s) (g s) (eg_err s) (egdone s) (pulled s) (disp s) (tokens s)
+                     (upd (ws s) w (TRet r)) (in_closed s) (S (ndone s)) (cbuf s)
+                     (c_closed s || Nat.eqb (S (ndone s)) (length (ws s)))
+                     (heap s) (next s) (cons s)
+                     (yielded s) (taken s) (ndisp s) (failed s) (srcfailed s) (close_called s) (src_closed s))
+      | _ => None
+      end
+  | TWRet w =>
+      match getw s w with
+      | Some (TRet r) =>
+          let '(e, x) := record r (eg_err s) (g s) in
+          Some (mkSt (src s) (ferr s) (serr s) (buf s) (fgated s) (sgated s) (frel s) (srel s) (reqs s)
+                     (nctx s) (pdone s) x e (S (egdone s)) (pulled s) (disp s) (tokens s)
+                     (upd (ws s) w TDone) (in_closed s) (ndone s) (cbuf s) (c_closed s)
+                     (heap s) (next s) (cons s)
+                     (yielded s) (taken s) (ndisp s) (failed s) (srcfailed s) (close_called s) (src_closed s))
+      | _ => None
+      end
+  (* ---------------- consumer ---------------- *)
+  | LCallNext j =>
+      match cons s, reqs s with
+      | KIdle, RqNext j' :: rq =>
+          if Nat.eqb j j'
+          then Some (set_cons (set_harness s (frel s) (srel s) rq (nctx s) (pdone s)) (KLoop j)) else None
+      | _, _ => None
+      end
+  | TLoop =>
+      match cons s with
+      | KLoop j =>
+          match heap s with
+          | (k, v) :: t =>
+              if Nat.eqb k (next s)
+              then Some (mkSt (src s) (ferr s) (serr s) (buf s) (fgated s) (sgated s) (frel s) (srel s) (reqs s)
+                              (nctx s) (pdone s) (g s) (eg_err s) (egdone s) (pulled s) (disp s) (tokens s)
+                              (ws s) (in_closed s) (ndone s) (cbuf s) (c_closed s) t (S (next s)) (KPut j v)
+                              (yielded s ++ [v]) (taken s) (ndisp s) (failed s) (srcfailed s) (close_called s)
+                              (src_closed s))
+              else Some (set_cons s (KSel j))
+          | [] => Some (set_cons s (KSel j))
+          end
+      | _ => None
+      end
+  | TPut =>
+      match cons s with
+      | KPut j v =>
+          if (tokens s <? buf s)%nat
+          then Some (mkSt (src s) (ferr s) (serr s) (buf s) (fgated s) (sgated s) (frel s) (srel s) (reqs s)
+                          (nctx s) (pdone s) (g s) (eg_err s) (egdone s) (pulled s) (disp s) (S (tokens s))
+                          (ws s) (in_closed s) (ndone s) (cbuf s) (c_closed s) (heap s) (next s) (KRet (RVal v))
+                          (yielded s) (taken s) (ndisp s) (failed s) (srcfailed s) (close_called s) (src_closed s))
+          else None
+      | _ => None
+      end
+  | TRecv =>
+      match cons s, cbuf s with
+      | KSel j, x :: t =>
+          Some (mkSt (src s) (ferr s) (serr s) (buf s) (fgated s) (sgated s) (frel s) (srel s) (reqs s)
+                     (nctx s) (pdone s) (g s) (eg_err s) (egdone s) (pulled s) (disp s) (tokens s)
+                     (ws s) (in_closed s) (ndone s) t (c_closed s) (hpush x (heap s)) (next s) (KLoop j)
+                     (yielded s) (taken s) (ndisp s) (failed s) (srcfailed s) (close_called s) (src_closed s))
+      | _, _ => None
+      end
+  | TCClosed =>
+      match cons s, cbuf s with
+      | KSel j, [] => if c_closed s then Some (set_cons s KWait) else None
+      | _, _ => None
+      end
+  | TNextCtx =>
+      match cons s with
+      | KSel j => if nthb (nctx s) j then Some (set_cons s (KRet RCtx)) else None
+      | _ => None
+      end
+  | TWait =>
+      match cons s with
+      | KWait =>
+          if Nat.eqb (egdone s) (S (length (ws s)))
+          then Some (set_cons (set_g s (cancelG (g s) ByWait))
+                              (KRet (match eg_err s with Some e => RErr e | None => REnd end)))
+          else None
+      | _ => None
+      end
+  | LRetNext r =>
+      match cons s with
+      | KRet r' => if res_eqb r r' then Some (set_cons s KIdle) else None
+      | _ => None
+      end
+  | LCallClose =>
+      match cons s, reqs s with
+      | KIdle, RqClose :: rq => Some (set_cons (set_harness s (frel s) (srel s) rq (nctx s) (pdone s)) KClose1)
+      | _, _ => None
+      end
+  | TCloseCancel =>
+      match cons s with
+      | KClose1 =>
+          Some (mkSt (src s) (ferr s) (serr s) (buf s) (fgated s) (sgated s) (frel s) (srel s) (reqs s)
+                     (nctx s) (pdone s) (cancelG (g s) ByClose) (eg_err s) (egdone s) (pulled s) (disp s) (tokens s)
+                     (ws s) (in_closed s) (ndone s) (cbuf s) (c_closed s) (heap s) (next s) KClose2
+                     (yielded s) (taken s) (ndisp s) (failed s) (srcfailed s) true (src_closed s))
+      | _ => None
+      end
+  | TCloseWait =>
+      match cons s with
+      | KClose2 =>
+          if Nat.eqb (egdone s) (S (length (ws s)))
+          then Some (set_cons (set_g s (cancelG (g s) ByWait)) KCloseRet) else None
+      | _ => None
+      end
+  | LRetClose => match cons s with KCloseRet => Some (set_cons s KClosed) | _ => None end
+  (* ---------------- controller / contexts ---------------- *)
+  | LReq c => Some (set_harness s (frel s) (srel s) (reqs s ++ [c]) (nctx s) (pdone s))
+  | LReleaseF k => Some (set_harness s (upd (frel s) k true) (srel s) (reqs s) (nctx s) (pdone s))
+  | LReleaseS k => Some (set_harness s (frel s) (upd (srel s) k true) (reqs s) (nctx s) (pdone s))
+  | LCancelParent => Some (set_harness s (frel s) (srel s) (reqs s) (nctx s) true)
+  | LCancelNext j => Some (set_harness s (frel s) (srel s) (reqs s) (upd (nctx s) j true) (pdone s))
+  | TParentProp =>
+      match g s with
+      | GLive => if pdone s then Some (set_g s (GDone ByParent)) else None
+      | _ => None
+      end
+  | LQuiesce => None
+  end.
+
+Definition tau_all (s : st) : list lab :=
+  [TDReady; TDCtx; TCloseIn; TDRet; TLoop; TPut; TRecv; TCClosed; TNextCtx; TWait; TCloseCancel; TCloseWait;
+   TParentProp]
+  ++ flat_map (fun w => [TDispatch w; TInClosed w; TWSend w; TWCtx w; TWExit w; TWRet w]) (seq 0 (length (ws s))).
+
+Definition lib_visible (s : st) : list lab :=
+  [LSrcEnter; LSrcExit (SoItem (pulled s)); LSrcExit SoEnd; LSrcExit SoErr; LSrcExit SoCtx;
+   LSrcCloseEnter; LSrcCloseExit; LCallClose; LRetClose]
+  ++ match reqs s with RqNext j :: _ => [LCallNext j] | _ => [] end
+  ++ match cons s with KRet r => [LRetNext r] | _ => [] end
+  ++ flat_map (fun w => match nth_error (ws s) w with
+                        | Some (THas k) => [LFEnter w k]
+                        | Some (TInF k) => [LFExit w k FoOk; LFExit w k FoErr; LFExit w k FoCtx]
+                        | _ => [] end) (seq 0 (length (ws s))).
+
+Definition enabled (s : st) (l : lab) : bool := match step s l with Some _ => true | None => false end.
+
+Definition quiescent (s : st) : bool :=
+  negb (existsb (enabled s) (tau_all s)) && negb (existsb (enabled s) (lib_visible s)).
+
+Definition qstep (s : st) (l : lab) : option st :=
+  match l with
+  | LQuiesce => if quiescent s then Some s else None
+  | _ => step s l
+  end.
+
+(* library labels: internal steps of the library's goroutines and of Next/Close, the up-call entries and
+   the API returns.  Environment: the up-calls returning ([LSrcExit], [LSrcCloseExit], [LFExit]) and
+   the context package ([TParentProp]).  Controller: the rest. *)
+Definition is_lib (l : lab) : bool :=
+  match l with
+  | LSrcEnter | LSrcCloseEnter | LFEnter _ _ | LRetNext _ | LRetClose
+  | TDReady | TDCtx | TDispatch _ | TCloseIn | TDRet
+  | TInClosed _ | TWSend _ | TWCtx _ | TWExit _ | TWRet _
+  | TLoop | TPut | TRecv | TCClosed | TNextCtx | TWait | TCloseCancel | TCloseWait => true
+  | _ => false
+  end.
+(* the environment returning from an up-call *)
+Definition is_env (l : lab) : bool :=
+  match l with LSrcExit _ | LSrcCloseExit | LFExit _ _ _ => true | _ => false end.
+
+End Step.
+
+(* ---- events: labels with unobservable data erased (worker ids; who cancelled the group's
+        context when the error value is context.Canceled: the library's own cancellations and
+        Close are indistinguishable by value, the caller's context has its own error value) ---- *)
+Definition canon_cause (c : cause) : cause := match c with ByParent => ByParent | _ => ByClose end.
+Definition canon_res (r : res) : res :=
+  match r with RErr (ECtx c) => RErr (ECtx (canon_cause c)) | _ => r end.
+
+Definition vis (l : lab) : option lab :=
+  match l with
+  | LSrcEnter | LSrcExit _ | LSrcCloseEnter | LSrcCloseExit | LCallNext _ | LCallClose | LRetClose
+  | LReq _ | LReleaseF _ | LReleaseS _ | LCancelParent | LCancelNext _ | LQuiesce => Some l
+  | LRetNext r => Some (LRetNext (canon_res r))
+  | LFEnter _ k => Some (LFEnter 0 k)
+  | LFExit _ k o => Some (LFExit 0 k o)
+  | _ => None
+  end.
+
+Definition fout_eqb (a b : fout) : bool :=
+  match a, b with FoOk, FoOk | FoErr, FoErr | FoCtx, FoCtx => true | _, _ => false end.
+Definition creq_eqb (a b : creq) : bool :=
+  match a, b with RqNext x, RqNext y => Nat.eqb x y | RqClose, RqClose => true | _, _ => false end.
+
+Definition lab_eqb (a b : lab) : bool :=
+  match a, b with
+  | LSrcEnter, LSrcEnter | LSrcCloseEnter, LSrcCloseEnter | LSrcCloseExit, LSrcCloseExit
+  | LCallClose, LCallClose | LRetClose, LRetClose | LCancelParent, LCancelParent | LQuiesce, LQuiesce => true
+  | LSrcExit x, LSrcExit y => sout_eqb x y
+  | LFEnter w k, LFEnter w' k' => Nat.eqb w w' && Nat.eqb k k'
+  | LFExit w k o, LFExit w' k' o' => Nat.eqb w w' && Nat.eqb k k' && fout_eqb o o'
+  | LCallNext x, LCallNext y | LReleaseF x, LReleaseF y | LReleaseS x, LReleaseS y
+  | LCancelNext x, LCancelNext y => Nat.eqb x y
+  | LRetNext x, LRetNext y => res_eqb x y
+  | LReq x, LReq y => creq_eqb x y
+  | _, _ => false
+  end.
+
+Definition gstate_eqb (a b : gstate) : bool :=
+  match a, b with GLive, GLive => true | GDone x, GDone y => cause_eqb x y | _, _ => false end.
+Definition opterr_eqb (a b : option err) : bool :=
+  match a, b with None, None => true | Some x, Some y => err_eqb x y | _, _ => false end.
+Definition dpc_eqb (a b : dpc) : bool :=
+  match a, b with
+  | SPull, SPull | SInSrc, SInSrc | SDone, SDone => true
+  | SWait x, SWait y | SSend x, SSend y => Nat.eqb x y
+  | SCloseIn x, SCloseIn y | SCloseSrc x, SCloseSrc y | SInClose x, SInClose y | SRet x, SRet y => opterr_eqb x y
+  | _, _ => false
+  end.
+Definition wpc_eqb (a b : wpc) : bool :=
+  match a, b with
+  | TIdle, TIdle | TDone, TDone => true
+  | THas x, THas y | TInF x, TInF y => Nat.eqb x y
+  | TSend x v, TSend y u => Nat.eqb x y && Z.eqb v u
+  | TExit x, TExit y | TRet x, TRet y => opterr_eqb x y
+  | _, _ => false
+  end.
+Definition cpc_eqb (a b : cpc) : bool :=
+  match a, b with
+  | KIdle, KIdle | KWait, KWait | KClose1, KClose1 | KClose2, KClose2 | KCloseRet, KCloseRet
+  | KClosed, KClosed => true
+  | KLoop x, KLoop y | KSel x, KSel y => Nat.eqb x y
+  | KPut x v, KPut y u => Nat.eqb x y && Z.eqb v u
+  | KRet x, KRet y => res_eqb x y
+  | _, _ => false
+  end.
+Definition st_eqb (a b : st) : bool :=
+  list_eqb Z.eqb (src a) (src b) && list_eqb Bool.eqb (ferr a) (ferr b) && Bool.eqb (serr a) (serr b)
+  && Nat.eqb (buf a) (buf b) && list_eqb Bool.eqb (fgated a) (fgated b) && list_eqb Bool.eqb (sgated a) (sgated b)
+  && list_eqb Bool.eqb (frel a) (frel b) && list_eqb Bool.eqb (srel a) (srel b)
+  && list_eqb creq_eqb (reqs a) (reqs b) && list_eqb Bool.eqb (nctx a) (nctx b) && Bool.eqb (pdone a) (pdone b)
+  && gstate_eqb (g a) (g b) && opterr_eqb (eg_err a) (eg_err b) && Nat.eqb (egdone a) (egdone b)
+  && Nat.eqb (pulled a) (pulled b) && dpc_eqb (disp a) (disp b) && Nat.eqb (tokens a) (tokens b)
+  && list_eqb wpc_eqb (ws a) (ws b) && Bool.eqb (in_closed a) (in_closed b) && Nat.eqb (ndone a) (ndone b)
+  && list_eqb entry_eqb (cbuf a) (cbuf b) && Bool.eqb (c_closed a) (c_closed b)
+  && list_eqb entry_eqb (heap a) (heap b) && Nat.eqb (next a) (next b) && cpc_eqb (cons a) (cons b)
+  && list_eqb Z.eqb (yielded a) (yielded b) && Nat.eqb (taken a) (taken b) && Nat.eqb (ndisp a) (ndisp b)
+  && list_eqb Nat.eqb (failed a) (failed b) && Bool.eqb (srcfailed a) (srcfailed b)
+  && Bool.eqb (close_called a) (close_called b) && Nat.eqb (src_closed a) (src_closed b).
+
+(* scenario configuration *)
+Record cfg := mkCfg {
+  c_gomaxprocs : Z; c_par : Z; c_bufsz : Z;
+  c_items : list Z; c_ferr : list bool; c_serr : bool;
+  c_fgated : list bool; c_sgated : list bool;     (* f gated per item; source gated per pull 0..n *)
+  c_nctx : nat                                    (* number of per-call contexts *)
+}.
+
+(* the state right after MapStream(ctx, s, parallelism, bufferSize, f) returned: [ready] is full *)
+Definition init (c : cfg) : st :=
+  let p := norm_par (c_gomaxprocs c) (c_par c) in
+  let b := Z.to_nat (norm_buf p (c_bufsz c)) in
+  mkSt (c_items c) (c_ferr c) (c_serr c) b (c_fgated c) (c_sgated c)
+       (map negb (c_fgated c)) (map negb (c_sgated c)) [] (repeat false (c_nctx c)) false
+       GLive None 0 0 SPull b (repeat TIdle (Z.to_nat p)) false 0 [] false [] 0 KIdle
+       [] 0 0 [] false false 0.
+
+Fixpoint first_idle (l : list wpc) (i : nat) : list nat :=
+  match l with
+  | [] => []
+  | TIdle :: _ => [i]
+  | _ :: t => first_idle t (S i)
+  end.
+Definition tau_labels (s : st) : list lab :=
+  [TDReady; TDCtx; TCloseIn; TDRet; TLoop; TPut; TRecv; TCClosed; TNextCtx; TWait; TCloseCancel; TCloseWait;
+   TParentProp]
+  ++ map TDispatch (first_idle (ws s) 0)
+  ++ flat_map (fun w => [TInClosed w; TWSend w; TWCtx w; TWExit w; TWRet w]) (seq 0 (length (ws s))).
+
+Definition labels_ev (s : st) (e : lab) : list lab :=
+  match e with
+  | LFEnter _ k => map (fun w => LFEnter w k) (seq 0 (length (ws s)))
+  | LFExit _ k o => map (fun w => LFExit w k o) (seq 0 (length (ws s)))
+  | LRetNext (RErr (ECtx ByClose)) =>
+      [LRetNext (RErr (ECtx ByClose)); LRetNext (RErr (ECtx ByError)); LRetNext (RErr (ECtx ByWait))]
+  | _ => [e]
+  end.
+
+Definition accepts_history (fv : Z -> Z) (c : cfg) (evs : list lab) : bool :=
+  accepts (qstep fv) vis lab_eqb st_eqb tau_labels labels_ev 64 (init c) evs.
+
+Definition first_rejected (fv : Z -> Z) (c : cfg) (evs : list lab) : option nat :=
+  first_reject (qstep fv) vis lab_eqb st_eqb tau_labels labels_ev 64
+               (close (qstep fv) vis st_eqb tau_labels 64 [init c]) evs O.
+
+End MS.
